@@ -36,6 +36,9 @@ func val(b []byte) string {
 
 var classes = []string{"random", "zero", "leadzero", "maxid", "id0"}
 
+// allClasses: a replay executes every material class whatever the tier
+var allClasses bool
+
 const none = "none"
 
 func try(f func()) (panicked bool) {
@@ -51,6 +54,7 @@ func try(f func()) (panicked bool) {
 func runKP(w *vt.Writer, casesPath, replay string) {
 	var lines []json.RawMessage
 	if replay != "" {
+		allClasses = true
 		var r struct {
 			Event struct {
 				Kt string          `json:"kt"`
@@ -125,7 +129,7 @@ func doCase(n int, c kpCase, rawP json.RawMessage) []vt.Ev {
 	for _, kind := range keyfactory.Kinds(c.Kt) {
 		for ci, class := range classes {
 			// quick tier: random material plus one other class, rotating with the record number
-			if !vt.Thorough() && ci != 0 && ci != 1+n%4 {
+			if !vt.Thorough() && !allClasses && ci != 0 && ci != 1+n%4 {
 				continue
 			}
 			keys = append(keys, doKey(c, kind, class, params, int64(n)*64+int64(ci)))
@@ -147,7 +151,9 @@ func doKey(c kpCase, kind, class string, params key.Parameters, stream int64) ma
 		"material2": "", "idreq2": none, "value2": "", "serEqual": false, "ksbin": "n/a", "ksjson": "n/a", "panic": false}
 	var k key.Key
 	var err error
-	if try(func() { k, err = keyfactory.NewKey(c.Kt, kind, c.P, params, keyfactory.Material{Class: class, Rng: vt.Rng(stream)}) }) {
+	if try(func() {
+		k, err = keyfactory.NewKey(c.Kt, kind, c.P, params, keyfactory.Material{Class: class, Rng: vt.Rng(stream)})
+	}) {
 		r["panic"] = true
 		return r
 	}
